@@ -129,6 +129,7 @@ class Verifier:
                         continue
                     td = ex.field_td(ex.repo.cls(f.owner), f)
                     v = td.fresh("init_" + f.name)
+                    v.kind = ex.annotation_kind(("field", None, f))
                     st.assume(*ex.type_facts(v.z, td, st))
                     if isinstance(td, TRefT):
                         st.assume(smt.born(v.z) <= 0)
@@ -176,6 +177,8 @@ class Verifier:
                 # "self: Relation" on BaseRelation mixin methods
                 td = TRefT(fi.cls)
             v = td.fresh(p.arg)
+            if p.annotation is not None and ast.unparse(p.annotation).replace(" ", "").startswith("frozenset["):
+                v.kind = "frozen"
             st.assume(*ex.type_facts(v.z, td, st))
             if isinstance(td, TRefT):
                 st.assume(smt.born(v.z) <= 0)
@@ -250,6 +253,8 @@ class Verifier:
                 obls.extend(self.outcome_obligations(ex, k, fi, env, old, r))
             if only_labels is not None:
                 obls = [o for o in obls if f"{key}/{o.label}" in only_labels]
+            if getattr(self, "only_kinds", None):
+                obls = [o for o in obls if o.kind in self.only_kinds]
             results = self.discharge_all(ex, obls, key, env) if not getattr(self, "dry_run", False) else []
             # vacuity: the precondition must be satisfiable
             vs = z3.Solver()
@@ -334,6 +339,12 @@ class Verifier:
                 out.append(mk(lab, z3.Not(smt.lift(cond(ctx)).z), "must-raise", excs=list(excs)))
             if k.fresh_result and isinstance(val, SV):
                 out.append(mk("fresh-result", z3.BoolVal(bool(val.fresh)), "frame"))
+            if isinstance(r.value, SV) and r.value.td in (smt.TTagSet, smt.TOptTagSet) and ex.annotation_kind(("method", fi.cls, fi)) == "frozen":
+                # callers rely on the declared ``-> frozenset[...]`` (C09: what gets stored in frozen dataclasses is hashable)
+                okk = z3.BoolVal(getattr(r.value, "kind", None) == "frozen")
+                if r.value.td == smt.TOptTagSet:
+                    okk = z3.Or(smt.OptTagSet.is_ots_none(r.value.z), okk)
+                out.append(mk("returns-a-frozenset-as-declared", okk, "frozen-field"))
         elif r.kind == "raise":
             ctx.exc = r.exc
             allowed = [(e, c) for e, c in k.may_raise.items() if exc_matches(r.exc or "", e)]
@@ -515,20 +526,15 @@ def closure_keys(repo: Repo, reg: Registry, used: list[str]) -> list[str]:
     implementation, attribute contracts to every property implementing the attribute; assumed contracts are skipped
     (they are listed as assumptions)."""
     out: list[str] = []
-    for ck in used:
+
+    def add(ck: str) -> None:
         c = reg.contracts.get(ck)
         if c is None or c.assumed:
-            continue
-        if ck.startswith("attr:"):
-            attr = ck.rsplit(".", 1)[1]
-            for k2, c2 in reg.contracts.items():
-                if c2.attr and not k2.startswith("attr:") and k2.rsplit(".", 1)[1] == attr and not c2.assumed and k2 not in out:
-                    out.append(k2)
-            continue
+            return
         try:
             fi = repo.func(ck)
         except KeyError:
-            continue
+            return
         if c.virtual and fi.cls is not None:
             for sub in repo.subclasses(fi.cls, concrete_only=False):
                 m = sub.methods.get(fi.name)
@@ -540,6 +546,15 @@ def closure_keys(repo: Repo, reg: Registry, used: list[str]) -> list[str]:
                         out.append(k2)
         elif not fi.abstract and ck not in out:
             out.append(ck)
+
+    for ck in used:
+        if ck.startswith("attr:"):
+            attr = ck.rsplit(".", 1)[1]
+            for k2, c2 in list(reg.contracts.items()):
+                if c2.attr and not k2.startswith("attr:") and k2.rsplit(".", 1)[1] == attr:
+                    add(k2)
+        else:
+            add(ck)
     return out
 
 
